@@ -291,7 +291,7 @@ def _check_type(chk, case, real, drv):
         chk.count("type:statement-rejected")
         return
     duck = real["duck_types"]
-    replies = [drv.ask("types", "col", enc_str(t)) for t in duck]
+    replies = [drv.ask("descr", "col", enc_str(t)) for t in duck]
     for t in duck:
         chk.count(f"ducktype:{'DECIMAL(p,s)' if t.startswith('DECIMAL(') else t}")
     want = []
@@ -346,7 +346,7 @@ def _check_stmt(chk, case, real, drv):
     chk.count(f"stmt:{case['name']}")
     chk.count(f"point:{case['point']}")
     w, twin = real["with"], real["twin"]
-    model = drv.ask("types", "kind", case["mkind"])["describe"]
+    model = drv.ask("descr", "kind", case["mkind"])["describe"]
     where = f"`{case['sql']}` (description read {case['point']}" + (f", after {case['setup']}" if case["setup"] else "") + ")"
     d = w["description"]
     if case["sql"] is None:
